@@ -482,14 +482,6 @@ class Tensor(object):
                 self.shape[0] == other.shape[0]
             ), f"Batch dim must match, got {self.shape[0]} and {other.shape[0]}"
 
-        if self.dim() == 1:  # Special case
-            return Tensor(
-                [
-                    self.decompress_tucker_factors().cores[0]
-                    + other.decompress_tucker_factors().cores[0]
-                ]
-            )
-
         if self.batch:
             idxs = "bijk,baj->biak"
             m = 3
